@@ -23,7 +23,7 @@ use std::panic::{AssertUnwindSafe, catch_unwind};
 const NANKEY: i64 = 1 << 32;
 
 /// Order key of a distance in the order of `OrderedFloat<f32>` (−0 = +0, NaN greatest).
-fn key(d: f32) -> i64 {
+pub(crate) fn key(d: f32) -> i64 {
     if d.is_nan() {
         return NANKEY;
     }
@@ -31,12 +31,12 @@ fn key(d: f32) -> i64 {
     (if b < 0 { b ^ 0x7fff_ffff } else { b }) as i64
 }
 
-fn round_bf16(v: &[f32]) -> Vec<f32> {
+pub(crate) fn round_bf16(v: &[f32]) -> Vec<f32> {
     v.iter().map(|x| bf16::from_f32(*x).to_f32()).collect()
 }
 
 /// Independent reading of "the configured metric" in f64.
-fn ref_metric(m: DistanceMetric, a: &[f32], b: &[f32]) -> f64 {
+pub(crate) fn ref_metric(m: DistanceMetric, a: &[f32], b: &[f32]) -> f64 {
     let z = a.iter().zip(b).map(|(x, y)| (*x as f64, *y as f64));
     match m {
         DistanceMetric::Euclidean => z.map(|(x, y)| (x - y) * (x - y)).sum::<f64>().sqrt(),
@@ -59,7 +59,7 @@ fn ref_metric(m: DistanceMetric, a: &[f32], b: &[f32]) -> f64 {
     }
 }
 
-fn metric_name(m: DistanceMetric) -> &'static str {
+pub(crate) fn metric_name(m: DistanceMetric) -> &'static str {
     match m {
         DistanceMetric::Euclidean => "euclidean",
         DistanceMetric::Cosine => "cosine",
@@ -69,18 +69,18 @@ fn metric_name(m: DistanceMetric) -> &'static str {
 }
 
 #[derive(Deserialize)]
-struct MetaPeek {
-    entry_point: (u64, u8),
+pub(crate) struct MetaPeek {
+    pub(crate) entry_point: (u64, u8),
     #[serde(default)]
-    removed_nodes: Vec<u64>,
+    pub(crate) removed_nodes: Vec<u64>,
 }
 
-fn decode_meta(bytes: &[u8]) -> Option<MetaPeek> {
+pub(crate) fn decode_meta(bytes: &[u8]) -> Option<MetaPeek> {
     cbor2::from_reader(bytes).ok()
 }
 
 #[derive(Clone)]
-enum W {
+pub(crate) enum W {
     Node(u64, Vec<u8>),
     Ids(Vec<u8>, Vec<u64>),
     Meta(Vec<u8>),
@@ -88,15 +88,15 @@ enum W {
 }
 
 #[derive(Clone, Default)]
-struct Disk {
-    nodes: BTreeMap<u64, Vec<u8>>,
-    ids: Vec<u8>,
-    ids_list: Vec<u64>,
-    meta: Vec<u8>,
+pub(crate) struct Disk {
+    pub(crate) nodes: BTreeMap<u64, Vec<u8>>,
+    pub(crate) ids: Vec<u8>,
+    pub(crate) ids_list: Vec<u64>,
+    pub(crate) meta: Vec<u8>,
 }
 
 impl Disk {
-    fn apply(&mut self, w: &W) {
+    pub(crate) fn apply(&mut self, w: &W) {
         match w {
             W::Node(id, b) => {
                 self.nodes.insert(*id, b.clone());
@@ -144,7 +144,7 @@ fn flush_writes(index: &HnswIndex, now: u64) -> Vec<W> {
 
 /// Entry point and tombstones as the next metadata blob would record them, without
 /// committing anything (the metadata callback fails, so the flush is abandoned).
-fn peek_meta(index: &HnswIndex, fallback: &[u8]) -> Option<MetaPeek> {
+pub(crate) fn peek_meta(index: &HnswIndex, fallback: &[u8]) -> Option<MetaPeek> {
     let cap: RefCell<Option<Vec<u8>>> = RefCell::new(None);
     let _ = block_on(index.flush_with(
         0,
@@ -162,7 +162,7 @@ fn peek_meta(index: &HnswIndex, fallback: &[u8]) -> Option<MetaPeek> {
     }
 }
 
-fn load(disk: &Disk) -> Result<HnswIndex, HnswError> {
+pub(crate) fn load(disk: &Disk) -> Result<HnswIndex, HnswError> {
     let nodes = &disk.nodes;
     block_on(HnswIndex::load_all(
         disk.meta.as_slice(),
@@ -171,15 +171,15 @@ fn load(disk: &Disk) -> Result<HnswIndex, HnswError> {
     ))
 }
 
-type JNode = (u64, u8, Vec<Vec<u64>>);
+pub(crate) type JNode = (u64, u8, Vec<Vec<u64>>);
 
-struct Dump {
-    nodes: Vec<JNode>,
-    vectors: BTreeMap<u64, Vec<bf16>>,
-    missing: Vec<u64>,
+pub(crate) struct Dump {
+    pub(crate) nodes: Vec<JNode>,
+    pub(crate) vectors: BTreeMap<u64, Vec<bf16>>,
+    pub(crate) missing: Vec<u64>,
 }
 
-fn dump(index: &HnswIndex) -> Dump {
+pub(crate) fn dump(index: &HnswIndex) -> Dump {
     let mut d = Dump { nodes: vec![], vectors: BTreeMap::new(), missing: vec![] };
     for id in index.node_ids() {
         match index.get_node_with(id, |n| n.clone()) {
@@ -197,7 +197,7 @@ fn dump(index: &HnswIndex) -> Dump {
     d
 }
 
-fn jnodes(ns: &[JNode]) -> Value {
+pub(crate) fn jnodes(ns: &[JNode]) -> Value {
     Value::Array(
         ns.iter()
             .map(|(id, l, nb)| tup(vec![json!(id), json!(l), json!(nb)]))
@@ -205,42 +205,42 @@ fn jnodes(ns: &[JNode]) -> Value {
     )
 }
 
-struct Out {
-    file: std::io::BufWriter<std::fs::File>,
-    failures: Vec<Value>,
-    counts: BTreeMap<String, u64>,
-    evaluations: u64,
+pub(crate) struct Out {
+    pub(crate) file: std::io::BufWriter<std::fs::File>,
+    pub(crate) failures: Vec<Value>,
+    pub(crate) counts: BTreeMap<String, u64>,
+    pub(crate) evaluations: u64,
 }
 
 impl Out {
-    fn line(&mut self, v: &Value) {
+    pub(crate) fn line(&mut self, v: &Value) {
         writeln!(self.file, "{}", v).unwrap();
     }
-    fn fail(&mut self, class: &str, what: String, detail: Value) {
+    pub(crate) fn fail(&mut self, class: &str, what: String, detail: Value) {
         *self.counts.entry(format!("fail:{class}")).or_default() += 1;
         if self.failures.len() < 40 {
             self.failures.push(json!({"class": class, "what": what, "detail": detail}));
         }
     }
-    fn count(&mut self, k: &str) {
+    pub(crate) fn count(&mut self, k: &str) {
         *self.counts.entry(k.to_string()).or_default() += 1;
     }
 }
 
 #[derive(Clone)]
-struct Cfg {
-    dim: usize,
-    metric: DistanceMetric,
-    strategy: SelectNeighborsStrategy,
-    reconnect: bool,
-    m: u8,
-    ef_c: usize,
-    ef_s: usize,
-    max_layers: u8,
+pub(crate) struct Cfg {
+    pub(crate) dim: usize,
+    pub(crate) metric: DistanceMetric,
+    pub(crate) strategy: SelectNeighborsStrategy,
+    pub(crate) reconnect: bool,
+    pub(crate) m: u8,
+    pub(crate) ef_c: usize,
+    pub(crate) ef_s: usize,
+    pub(crate) max_layers: u8,
 }
 
 impl Cfg {
-    fn hnsw(&self) -> HnswConfig {
+    pub(crate) fn hnsw(&self) -> HnswConfig {
         HnswConfig {
             dimension: self.dim,
             max_layers: self.max_layers,
@@ -253,7 +253,7 @@ impl Cfg {
             reconnect_on_delete: self.reconnect,
         }
     }
-    fn json(&self) -> Value {
+    pub(crate) fn json(&self) -> Value {
         json!({"dim": self.dim, "metric": metric_name(self.metric),
                "strategy": format!("{:?}", self.strategy), "reconnect": self.reconnect,
                "m": self.m, "ef_construction": self.ef_c, "ef_search": self.ef_s,
@@ -264,7 +264,7 @@ impl Cfg {
 /// One query against `index`, judged against `live` (the harness's own bf16-rounded copy of
 /// the vectors that should be in the index).  Returns the observation for the model.
 #[allow(clippy::too_many_arguments)]
-fn check_query(
+pub(crate) fn check_query(
     out: &mut Out,
     index: &HnswIndex,
     cfg: &Cfg,
@@ -273,14 +273,27 @@ fn check_query(
     k: usize,
     ctx: &Value,
 ) -> (i64, Vec<(u64, f32)>) {
+    let res = index.search_f32(q, k).map_err(|e| (if matches!(e, HnswError::NotFound { .. }) { 1 } else { 2 }, e.to_string()));
+    check_results(out, cfg, live, q, k, res, ctx)
+}
+
+/// Judge one result list (from the index or from the collection-level wrapper).
+#[allow(clippy::too_many_arguments)]
+pub(crate) fn check_results(
+    out: &mut Out,
+    cfg: &Cfg,
+    live: &BTreeMap<u64, Vec<f32>>,
+    q: &[f32],
+    k: usize,
+    res: Result<Vec<(u64, f32)>, (i64, String)>,
+    ctx: &Value,
+) -> (i64, Vec<(u64, f32)>) {
     out.evaluations += 1;
     let valid = q.len() == cfg.dim && q.iter().all(|x| x.is_finite());
-    let res = index.search_f32(q, k);
     let replay = |rs: &Value| json!({"context": ctx, "config": cfg.json(), "query": q, "k": k, "observed": rs,
         "live_ids": live.keys().collect::<Vec<_>>()});
     match res {
-        Err(e) => {
-            let code = if matches!(e, HnswError::NotFound { .. }) { 1 } else { 2 };
+        Err((code, e)) => {
             if valid || k == 0 {
                 out.fail("search-error", format!("search_f32 failed on a valid query: {e}"), replay(&json!(null)));
             }
@@ -330,7 +343,7 @@ fn check_query(
     }
 }
 
-fn gen_vector(rng: &mut Rng, dim: usize, style: u64, centers: &[Vec<f32>]) -> Vec<f32> {
+pub(crate) fn gen_vector(rng: &mut Rng, dim: usize, style: u64, centers: &[Vec<f32>]) -> Vec<f32> {
     let v: Vec<f32> = match style {
         0 => (0..dim).map(|_| (rng.below(1 << 24) as f32) / (1u64 << 24) as f32).collect(),
         1 => {
@@ -343,7 +356,7 @@ fn gen_vector(rng: &mut Rng, dim: usize, style: u64, centers: &[Vec<f32>]) -> Ve
     round_bf16(&v)
 }
 
-fn gen_query(rng: &mut Rng, cfg: &Cfg, style: u64, centers: &[Vec<f32>], live: &BTreeMap<u64, Vec<f32>>) -> (Vec<f32>, &'static str) {
+pub(crate) fn gen_query(rng: &mut Rng, cfg: &Cfg, style: u64, centers: &[Vec<f32>], live: &BTreeMap<u64, Vec<f32>>) -> (Vec<f32>, &'static str) {
     let dim = cfg.dim;
     match rng.below(10) {
         0 | 1 if !live.is_empty() => {
@@ -375,7 +388,7 @@ fn gen_query(rng: &mut Rng, cfg: &Cfg, style: u64, centers: &[Vec<f32>], live: &
     }
 }
 
-fn search_case(
+pub(crate) fn search_case(
     out: &mut Out,
     index: &HnswIndex,
     cfg: &Cfg,
@@ -409,7 +422,7 @@ fn search_case(
 }
 
 /// Independent reading of a disk image: which ids a load must end up with, and their vectors.
-fn expected_after_load(disk: &Disk) -> BTreeMap<u64, Vec<f32>> {
+pub(crate) fn expected_after_load(disk: &Disk) -> BTreeMap<u64, Vec<f32>> {
     let mut m = BTreeMap::new();
     for id in &disk.ids_list {
         if let Some(b) = disk.nodes.get(id)
@@ -421,7 +434,7 @@ fn expected_after_load(disk: &Disk) -> BTreeMap<u64, Vec<f32>> {
     m
 }
 
-fn jblob(bytes: &[u8]) -> Value {
+pub(crate) fn jblob(bytes: &[u8]) -> Value {
     match cbor2::from_reader::<HnswNode, _>(bytes) {
         Err(_) => Value::Null,
         Ok(n) => some(tup(vec![
@@ -436,7 +449,7 @@ fn jblob(bytes: &[u8]) -> Value {
 }
 
 /// Load one disk image; judge the loaded state (direct oracle), emit the model case, return it.
-fn check_load(out: &mut Out, cfg: &Cfg, disk: &Disk, ctx: &Value, emit_model: bool, expect_ok: bool) -> Option<(HnswIndex, (u64, u8))> {
+pub(crate) fn check_load(out: &mut Out, cfg: &Cfg, disk: &Disk, ctx: &Value, emit_model: bool, expect_ok: bool) -> Option<(HnswIndex, (u64, u8))> {
     out.evaluations += 1;
     let rec = decode_meta(&disk.meta).map(|m| m.entry_point).unwrap_or((0, 0));
     let lcase = tup(vec![
@@ -538,12 +551,14 @@ fn reindex(out: &mut Out, index: &HnswIndex, truth: &BTreeMap<u64, Vec<f32>>, ct
 
 fn history(out: &mut Out, rng: &mut Rng, hno: usize, model_every: usize) {
     let metrics = [DistanceMetric::Euclidean, DistanceMetric::Cosine, DistanceMetric::InnerProduct, DistanceMetric::Manhattan];
-    let dims = [2usize, 3, 5, 8, 16, 33, 64];
+    // systematic: metric x strategy x reconnect cycle with the history number; the dimension walks
+    // through all of 2..=64 (11 is coprime to 63), offset by the seed
+    let seed_off = std::env::var("VERIF_SEED").ok().and_then(|s| s.parse::<usize>().ok()).unwrap_or(1);
     let cfg = Cfg {
-        dim: *rng.pick(&dims),
-        metric: *rng.pick(&metrics),
-        strategy: if rng.chance(1, 2) { SelectNeighborsStrategy::Simple } else { SelectNeighborsStrategy::Heuristic },
-        reconnect: rng.chance(1, 2),
+        dim: 2 + ((hno + seed_off) * 11) % 63,
+        metric: metrics[hno % 4],
+        strategy: if (hno / 4) % 2 == 0 { SelectNeighborsStrategy::Simple } else { SelectNeighborsStrategy::Heuristic },
+        reconnect: (hno / 8) % 2 == 1,
         m: rng.range(2, 6) as u8,
         ef_c: rng.range(2, 24) as usize,
         ef_s: rng.range(1, 16) as usize,
@@ -562,19 +577,23 @@ fn history(out: &mut Out, rng: &mut Rng, hno: usize, model_every: usize) {
     *out.counts.entry(format!("metric:{}", metric_name(cfg.metric))).or_default() += 1;
     *out.counts.entry(format!("strategy:{:?}", cfg.strategy)).or_default() += 1;
     *out.counts.entry(format!("dim:{}", cfg.dim)).or_default() += 1;
+    *out.counts.entry(format!("dim-multiple-of-8:{}", cfg.dim % 8 == 0)).or_default() += 1;
+    *out.counts.entry(format!("cfg:{}/{:?}/reconnect={}", metric_name(cfg.metric), cfg.strategy, cfg.reconnect)).or_default() += 1;
 
     let do_queries = |out: &mut Out, rng: &mut Rng, index: &HnswIndex, live: &BTreeMap<u64, Vec<f32>>, entry_fallback: &[u8], nq: usize, ctx: &Value, emit: bool, tag: &str| {
         let mut qs = vec![];
         for _ in 0..nq {
             let (mut q, qkind) = gen_query(rng, &cfg, style, &centers, live);
             let n = live.len();
-            let k = match rng.below(8) {
-                0 => 1,
-                1 => n + 1,
-                2 => n.max(1),
-                3 => 0,
-                _ => rng.range(1, n as i64 + 1) as usize,
+            let (k, kkind) = match rng.below(8) {
+                0 => (1, "1"),
+                1 => (n + 1, "n+1"),
+                2 => (n.max(1), "n"),
+                3 => (0, "0"),
+                _ => (rng.range(1, n as i64 + 1) as usize, "1..n+1"),
             };
+            out.count(&format!("k:{kkind}"));
+            out.count(&format!("query:{}:{}", metric_name(cfg.metric), if qkind == "stored" { "stored" } else if qkind == "in-distribution" { "in-distribution" } else { "out-of-distribution" }));
             match rng.below(40) {
                 0 => q[0] = f32::NAN,
                 1 => q[0] = f32::INFINITY,
@@ -625,7 +644,7 @@ fn history(out: &mut Out, rng: &mut Rng, hno: usize, model_every: usize) {
                 };
                 ops.push(json!({"remove": id}));
                 // correspondence of remove itself (no re-link): state before / after
-                let before = if !cfg.reconnect && rng.chance(1, 2) {
+                let before = if rng.chance(1, 2) {
                     let d = dump(&index);
                     let e = peek_meta(&index, &disk.meta).map(|m| m.entry_point).unwrap_or((0, 0));
                     Some((d, e, index.node_ids()))
@@ -648,8 +667,9 @@ fn history(out: &mut Out, rng: &mut Rng, hno: usize, model_every: usize) {
                     let e2 = peek_meta(&index, &disk.meta).map(|m| m.entry_point).unwrap_or((0, 0));
                     let case = tup(vec![jnodes(&d.nodes), json!(ids), tup(vec![json!(e.0), json!(e.1)]), json!(id)]);
                     let obs = tup(vec![json!(r), json!(index.node_ids()), tup(vec![json!(e2.0), json!(e2.1)]), jnodes(&after.nodes)]);
-                    out.line(&json!({"kind": "model", "part": "remove", "nontrivial": r && d.nodes.len() >= 3, "case": tup(vec![case, obs])}));
-                    out.count("model:remove");
+                    let part = if cfg.reconnect { "remove_relink" } else { "remove" };
+                    out.line(&json!({"kind": "model", "part": part, "nontrivial": r && d.nodes.len() >= 3, "case": tup(vec![case, obs])}));
+                    out.count(&format!("model:{part}"));
                 }
             }
             7 => {
@@ -743,19 +763,19 @@ fn history(out: &mut Out, rng: &mut Rng, hno: usize, model_every: usize) {
 
 // ------------------------------------------------------------------ recall (measurement)
 
-struct SplitMix64(u64);
+pub(crate) struct SplitMix64(pub(crate) u64);
 impl SplitMix64 {
-    fn next_u64(&mut self) -> u64 {
+    pub(crate) fn next_u64(&mut self) -> u64 {
         self.0 = self.0.wrapping_add(0x9E3779B97F4A7C15);
         let mut z = self.0;
         z = (z ^ (z >> 30)).wrapping_mul(0xBF58476D1CE4E5B9);
         z = (z ^ (z >> 27)).wrapping_mul(0x94D049BB133111EB);
         z ^ (z >> 31)
     }
-    fn next_f32(&mut self) -> f32 {
+    pub(crate) fn next_f32(&mut self) -> f32 {
         (self.next_u64() >> 40) as f32 / (1u64 << 24) as f32
     }
-    fn next_vector(&mut self, dim: usize) -> Vec<f32> {
+    pub(crate) fn next_vector(&mut self, dim: usize) -> Vec<f32> {
         (0..dim).map(|_| bf16::from_f32(self.next_f32()).to_f32()).collect()
     }
 }
@@ -809,7 +829,7 @@ impl Bench {
 }
 
 #[allow(clippy::too_many_arguments)]
-fn record(out: &mut Out, scenario: &str, stage: &str, seed: u64, avg: f64, min: f64, floor_avg: f64, floor_min: f64, margin_avg: f64, margin_min: f64) {
+pub(crate) fn record(out: &mut Out, scenario: &str, stage: &str, seed: u64, avg: f64, min: f64, floor_avg: f64, floor_min: f64, margin_avg: f64, margin_min: f64) {
     let ok = avg >= floor_avg - margin_avg && min >= floor_min - margin_min;
     out.line(&json!({"kind": "recall", "scenario": scenario, "stage": stage, "seed": seed, "avg": avg, "min": min,
         "floor_avg": floor_avg, "floor_min": floor_min, "margin_avg": margin_avg, "margin_min": margin_min,
@@ -821,9 +841,9 @@ fn record(out: &mut Out, scenario: &str, stage: &str, seed: u64, avg: f64, min: 
     }
 }
 
-const MARGIN_AVG: f64 = 0.03;
-const MARGIN_MIN: f64 = 0.20;
-const CRASH_MARGIN_AVG: f64 = 0.05;
+pub(crate) const MARGIN_AVG: f64 = 0.03;
+pub(crate) const MARGIN_MIN: f64 = 0.20;
+pub(crate) const CRASH_MARGIN_AVG: f64 = 0.05;
 
 fn recall_scenarios(out: &mut Out, seeds: &[(u64, bool)], crash_prefixes: usize, rng: &mut Rng) {
     let base = |dim: usize, metric: DistanceMetric| HnswConfig { dimension: dim, distance_metric: metric, ..Default::default() };
@@ -945,14 +965,24 @@ pub fn main(args: &[String]) {
             out.fail("panic", format!("history {h} panicked"), json!({"history": h}));
         }
     }
+    let wrapper_histories: usize = arg_value(args, "--wrapper-histories").and_then(|s| s.parse().ok()).unwrap_or(6);
+    let mut seeds = vec![];
     if recall_seeds > 0 {
-        let mut seeds = vec![(0u64, true)];
+        seeds.push((0u64, true));
         for _ in 1..recall_seeds {
             seeds.push((rng.next() | 1, false));
         }
         let mut r = rng.fork();
-        recall_scenarios(&mut out, &seeds, crash_prefixes, &mut r);
+        // a broken index can make a documented workload itself fail (e.g. a re-insert refused);
+        // that is a finding of its own and must not hide the failing inputs found so far
+        let res = catch_unwind(AssertUnwindSafe(|| recall_scenarios(&mut out, &seeds, crash_prefixes, &mut r)));
+        if let Err(p) = res {
+            let msg = p.downcast_ref::<String>().cloned().or_else(|| p.downcast_ref::<&str>().map(|s| s.to_string())).unwrap_or_default();
+            out.fail("recall-workload-panic", format!("a documented recall workload could not be executed: {msg}"), json!({"seeds": seeds}));
+        }
     }
+    let mut r = rng.fork();
+    crate::wrapper::run(&mut out, &mut r, wrapper_histories, &seeds, crash_prefixes);
     let summary = json!({"kind": "summary", "histories": histories, "evaluations": out.evaluations,
         "counts": out.counts, "oracle_failures": out.failures.len(), "failures": out.failures});
     out.line(&summary);
